@@ -158,6 +158,8 @@ func heads8() []seqx.Op {
 
 var c04Prefixes = map[string][]seqx.Op{
 	"+heads8": heads8(),
+	// the writer moves to a second device: an identity with the same id and another public key
+	"+setid-device": append(chain(0, 3), seqx.Op{K: "join", A: 2, B: 0}, seqx.Op{K: "app", A: 2}, seqx.Op{K: "join", A: 0, B: 2}, seqx.Op{K: "setid", A: 0, B: 4}),
 	"+setid":  append(chain(0, 3), seqx.Op{K: "join", A: 2, B: 0}, seqx.Op{K: "app", A: 2}, seqx.Op{K: "join", A: 0, B: 2}, seqx.Op{K: "setid", A: 0, B: 1}),
 }
 
@@ -192,6 +194,7 @@ func c04Searches(p *run.Part, tier string) []*seqx.Search {
 		mk(CfgDef3, "+chain20", Prefixes["+chain20"], rich3, pd),
 		mk(CfgDef3, "+fork12", Prefixes["+fork12"], rich3, pd),
 		mk(CfgDef3, "+setid", c04Prefixes["+setid"], rich3, pd+1),
+		mk(CfgDef3, "+setid-device", c04Prefixes["+setid-device"], rich3, pd+1),
 		mk(cfgMany8, "+heads8", c04Prefixes["+heads8"], []seqx.Op{{K: "app", A: 0, N: 1}, {K: "app", A: 0, N: 2}, {K: "app", A: 0, N: 4}, {K: "app", A: 0, N: 16},
 			{K: "app", A: 1}, {K: "join", A: 1, B: 0}, {K: "join", A: 0, B: 1}}, pd+1),
 	}
